@@ -8,8 +8,8 @@ CONSTANTS
   JCmds = {"hdrop"}
   HCmds = {"tick", "clear", "execdrop"}
   Spurious = TRUE
-  Strict = FALSE
-  Fix = {}
-  MaxLen = 80
+  Strict = TRUE
+  Fix = {"D10a", "D10b", "D11", "D12"}
+  MaxLen = 90
 SPECIFICATION GSpec
 INVARIANTS Emit
